@@ -907,6 +907,66 @@ def rw_else_after_exit_unwrap(func, k):
     return True
 
 
+def rw_split_elif_after_exit(func, k):
+    """if c: ...exit  elif d: B ...     ->     if c: ...exit ;  if d: B ...        (any position in the block)"""
+    sites = []
+    for owner, fld, blk in blocks_of(func):
+        for i, s in enumerate(blk):
+            if isinstance(s, ast.If) and always_exits(s.body) and len(s.orelse) == 1 and isinstance(s.orelse[0], ast.If):
+                sites.append((blk, i))
+    if k >= len(sites):
+        return False
+    blk, i = sites[k]
+    s = blk[i]
+    nxt = s.orelse[0]
+    s.orelse = []
+    blk.insert(i + 1, nxt)
+    return True
+
+
+def rw_join_elif_after_exit(func, k):
+    """if c: ...exit ;  if d: B ...     ->     if c: ...exit  elif d: B ..."""
+    sites = []
+    for owner, fld, blk in blocks_of(func):
+        for i in range(len(blk) - 1):
+            s = blk[i]
+            if isinstance(s, ast.If) and isinstance(blk[i + 1], ast.If):
+                tail = s
+                ok = always_exits(tail.body)
+                while ok and len(tail.orelse) == 1 and isinstance(tail.orelse[0], ast.If):
+                    tail = tail.orelse[0]
+                    ok = always_exits(tail.body)
+                if ok and not tail.orelse:
+                    sites.append((blk, i, tail))
+    if k >= len(sites):
+        return False
+    blk, i, tail = sites[k]
+    tail.orelse = [blk.pop(i + 1)]
+    return True
+
+
+def rw_fuse_nested_comp(func, k):
+    """[E(o) for o in [F(y) for y in S if c]]    ->    [E(F(y)) for y in S if c]        (F pure: it may now be evaluated once per use of o)"""
+    sites = [n for n in ast.walk(func) if isinstance(n, (ast.ListComp, ast.GeneratorExp, ast.SetComp)) and len(n.generators) == 1 and not n.generators[0].ifs
+             and isinstance(n.generators[0].target, ast.Name) and isinstance(n.generators[0].iter, (ast.ListComp, ast.GeneratorExp)) and len(n.generators[0].iter.generators) == 1
+             and _is_pure(n.generators[0].iter.elt)]
+    if k >= len(sites):
+        return False
+    n = sites[k]
+    inner = n.generators[0].iter
+    o = n.generators[0].target.id
+    bound_inner = {y.id for y in ast.walk(inner.generators[0].target) if isinstance(y, ast.Name)}
+    if any(isinstance(y, ast.Name) and y.id in bound_inner for y in ast.walk(n.elt)):
+        return True
+    holder = ast.Expression(body=n.elt)
+    for y in list(ast.walk(holder)):
+        if isinstance(y, ast.Name) and y.id == o and isinstance(y.ctx, ast.Load):
+            replace_node(holder, y, copy.deepcopy(inner.elt))
+    n.elt = holder.body
+    n.generators = inner.generators
+    return True
+
+
 def rw_ifexp_to_if(func, k):
     """x = a if c else b  ->  if c: x = a else: x = b      ;   return a if c else b  ->  if c: return a else: return b"""
     sites = []
@@ -3005,7 +3065,7 @@ def rw_inline_helper(func, k):
     return True
 
 
-GUIDED = [rw_zip_to_index, rw_inline_helper, rw_extract_temp, rw_flatten_comp_filter, rw_first_of_concat, rw_split_tuple_assign, rw_augcomp_to_loop, rw_len_zero, rw_bool_ifexp, rw_singleton_comp, rw_ndenumerate_value, rw_flat_to_ndenumerate, rw_slice_zero, rw_flip_compare, rw_keyword_to_positional, rw_fstring_to_percent, rw_np_all_any, rw_range_min_guard, rw_membership_container, rw_drop_default_arg, rw_unpack_first, rw_use_alias, rw_ravel_flatten, rw_last_appended, rw_pass_branch, rw_dictcomp_to_loop, rw_none_flag, rw_argcomp_to_loop, rw_hoist_return, rw_get_none, rw_else_after_exit_wrap, rw_else_after_exit_unwrap, rw_comp_to_loop, rw_loop_to_comp, rw_not_compare, rw_demorgan, rw_swap_branches, rw_merge_nested_if, rw_split_and_if, rw_guard_to_swapped_else, rw_swapped_else_to_guard, rw_drop_tail_return, rw_add_tail_return, rw_element_to_index_loop, rw_fuse_loops, rw_late_publication, rw_drop_tail_continue, rw_items_loop, rw_filter_loop, rw_loop_to_update, rw_is_false, rw_hoist_common_tail, rw_sink_common_tail, rw_try_tail_out, rw_try_tail_in, rw_genexp_loop, rw_guarded_subscript_get, rw_update_to_loop, rw_np_synonym, rw_append_augadd, rw_list_call_to_comp, rw_last_is_appended, rw_move_append, rw_append_comp_to_loop, rw_split_append_concat, rw_enumerate_to_index, rw_subscripted_literal, rw_extend_to_loop, rw_comp_over_collected, rw_tail_pass_to_continue, rw_split_or_exit, rw_merge_exit_ifs, rw_unroll_const_loop, rw_drop_noop_pass, rw_ifexp_to_if, rw_if_to_ifexp, rw_bool_to_if, rw_kwargs_default, rw_trailing_return, rw_enumerate, rw_return_temp]
+GUIDED = [rw_zip_to_index, rw_inline_helper, rw_extract_temp, rw_flatten_comp_filter, rw_first_of_concat, rw_split_tuple_assign, rw_augcomp_to_loop, rw_len_zero, rw_bool_ifexp, rw_singleton_comp, rw_ndenumerate_value, rw_flat_to_ndenumerate, rw_slice_zero, rw_flip_compare, rw_keyword_to_positional, rw_fstring_to_percent, rw_np_all_any, rw_range_min_guard, rw_membership_container, rw_drop_default_arg, rw_unpack_first, rw_use_alias, rw_ravel_flatten, rw_last_appended, rw_pass_branch, rw_dictcomp_to_loop, rw_none_flag, rw_argcomp_to_loop, rw_hoist_return, rw_get_none, rw_else_after_exit_wrap, rw_else_after_exit_unwrap, rw_comp_to_loop, rw_loop_to_comp, rw_not_compare, rw_demorgan, rw_swap_branches, rw_merge_nested_if, rw_split_and_if, rw_guard_to_swapped_else, rw_swapped_else_to_guard, rw_drop_tail_return, rw_add_tail_return, rw_element_to_index_loop, rw_fuse_loops, rw_late_publication, rw_drop_tail_continue, rw_items_loop, rw_filter_loop, rw_loop_to_update, rw_is_false, rw_hoist_common_tail, rw_sink_common_tail, rw_try_tail_out, rw_try_tail_in, rw_genexp_loop, rw_guarded_subscript_get, rw_update_to_loop, rw_fuse_nested_comp, rw_split_elif_after_exit, rw_join_elif_after_exit, rw_np_synonym, rw_append_augadd, rw_list_call_to_comp, rw_last_is_appended, rw_move_append, rw_append_comp_to_loop, rw_split_append_concat, rw_enumerate_to_index, rw_subscripted_literal, rw_extend_to_loop, rw_comp_over_collected, rw_tail_pass_to_continue, rw_split_or_exit, rw_merge_exit_ifs, rw_unroll_const_loop, rw_drop_noop_pass, rw_ifexp_to_if, rw_if_to_ifexp, rw_bool_to_if, rw_kwargs_default, rw_trailing_return, rw_enumerate, rw_return_temp]
 
 
 def _clone(node):
